@@ -140,4 +140,1090 @@ theorem read_confirms (s : MState) (dest seq dl : Nat) (t : ReadTask) (isFirst :
     · simp only [Step.acc, finishRead_confirms, deliver_confirms, modAssoc_outs, notify_outs, emit_outs, confirmsOf_append]
       rfl
 
+-- ===== BEGIN parsed fragments, mode frame (C15 / C16 / C17 helpers) =====
+
+/-- what `parseResponse` puts into `objects` is the parse of `raw` -/
+theorem parseResponse_objects (frag : List Nat) (r : Resp) (hp : parseResponse frag = some r) :
+    r.objects = parseRespObjects r.raw.length r.raw := by
+  unfold parseResponse at hp
+  split at hp
+  · dsimp only at hp
+    repeat' split at hp
+    all_goals first | (cases hp; rfl) | cases hp
+  · cases hp
+
+/-- a parsed fragment without objects has the empty (successful) object parse -/
+theorem parseResponse_null_objects (frag : List Nat) (r : Resp) (hp : parseResponse frag = some r) (h : r.raw = []) :
+    r.objects = some [] := by
+  rw [parseResponse_objects frag r hp, h]
+  rfl
+
+theorem taskOnError_mode (a : Acc) (dest : Nat) (t : Task) (e : TaskErr) : (taskOnError a dest t e).1.mode = a.1.mode := by
+  unfold taskOnError
+  split <;> try rfl
+  split <;> rfl
+
+theorem foldl_taskOnError_mode (addr : Nat) (e : TaskErr) (q : List Task) (a : Acc) :
+    (q.foldl (fun a t => taskOnError a addr t e) a).1.mode = a.1.mode := by
+  induction q generalizing a with
+  | nil => rfl
+  | cons t ts ih => simp only [List.foldl]; rw [ih, taskOnError_mode]
+
+/-- no message from a handle touches the session mode (hence no deadline) -/
+theorem processMessage_mode (a : Acc) (c : Bool) (m : Msg) : (processMessage a c m).1.1.mode = a.1.mode := by
+  unfold processMessage
+  cases m with
+  | enable on => rfl
+  | addAssoc addr cfg => simp only; split <;> rfl
+  | removeAssoc addr =>
+    simp only
+    split
+    · exact foldl_taskOnError_mode _ _ _ _
+    · rfl
+  | queueTask addr t =>
+    simp only
+    split
+    · exact taskOnError_mode _ _ _ _
+    · split
+      · exact taskOnError_mode _ _ _ _
+      · split
+        · rfl
+        · exact taskOnError_mode _ _ _ _
+  | addPoll addr period classes => simp only; split <;> rfl
+  | removePoll addr id => rfl
+  | demand addr id => rfl
+
+-- ===== END parsed fragments, mode frame =====
+
 end Dnp3.Proofs.Master
+
+-- ===== BEGIN C19 keep-alive credit =====
+namespace Dnp3.Master
+
+/-- the keep-alive deadlines of all associations, in map order -/
+def kaView (s : MState) : List (Nat × Option Nat) := s.assocs.map fun x => (x.addr, x.nextLinkStatus)
+
+/-- `f` changes neither the address nor the keep-alive deadline of an association -/
+def KeepsKa (f : Assoc → Assoc) : Prop := ∀ y, (f y).addr = y.addr ∧ (f y).nextLinkStatus = y.nextLinkStatus
+
+end Dnp3.Master
+
+namespace Dnp3.Proofs.Master
+open Dnp3 Dnp3.Master
+
+/-- generic frame lemma: an association update that keeps `addr` and `nextLinkStatus` keeps the view -/
+theorem modAssoc_kaView (a : Acc) (addr : Nat) (f : Assoc → Assoc)
+    (hf : ∀ y, (f y).addr = y.addr ∧ (f y).nextLinkStatus = y.nextLinkStatus) :
+    kaView (modAssoc a addr f).1 = kaView a.1 := by
+  unfold kaView modAssoc
+  simp only [List.map_map]
+  apply List.map_congr_left
+  intro y _
+  simp only [Function.comp]
+  split
+  · rw [(hf y).1, (hf y).2]
+  · rfl
+
+example : kaView (modAssoc (({ assocs := [{ addr := 7, cfg := {}, nextLinkStatus := some 5 }] } : MState), []) 7
+    (fun y => { y with seq := 3 })).1 = [(7, some 5)] := by decide
+
+theorem emit_kaView (a : Acc) (o : MOut) : kaView (emit a o).1 = kaView a.1 := rfl
+theorem setMode_kaView (a : Acc) (m : Mode) : kaView (setMode a m).1 = kaView a.1 := rfl
+theorem complete_kaView (a : Acc) (uid : Nat) (o : Outcome) : kaView (complete a uid o).1 = kaView a.1 := rfl
+theorem rotate_kaView (a : Acc) (addr : Nat) : kaView (rotate a addr).1 = kaView a.1 := rfl
+
+-- the functions handed to `modAssoc`
+
+theorem keeps_onRestartObserved : KeepsKa Assoc.onRestartObserved := by
+  intro y; unfold Assoc.onRestartObserved; split <;> exact ⟨rfl, rfl⟩
+
+theorem keeps_onNeedTime : KeepsKa Assoc.onNeedTime := fun _ => ⟨rfl, rfl⟩
+
+theorem keeps_onOverflow : KeepsKa Assoc.onOverflow := by
+  intro y; unfold Assoc.onOverflow; split <;> exact ⟨rfl, rfl⟩
+
+theorem keeps_setEvents (ev : Nat) : KeepsKa (·.setEvents ev) := by
+  intro y; simp only [Assoc.setEvents]; split <;> exact ⟨rfl, rfl⟩
+
+theorem keeps_ite (c : Prop) [Decidable c] (f : Assoc → Assoc) (hf : KeepsKa f) : KeepsKa fun y => if c then f y else y := by
+  intro y; split
+  · exact hf y
+  · exact ⟨rfl, rfl⟩
+
+theorem keeps_comp (f g : Assoc → Assoc) (hf : KeepsKa f) (hg : KeepsKa g) : KeepsKa fun y => g (f y) := by
+  intro y
+  exact ⟨(hg (f y)).1.trans (hf y).1, (hg (f y)).2.trans (hf y).2⟩
+
+theorem keeps_processIin (iin1 iin2 : Nat) : KeepsKa (·.processIin iin1 iin2) := by
+  have h1 := keeps_ite (iin1 &&& 0x80 ≠ 0) _ keeps_onRestartObserved
+  have h2 := keeps_ite (iin1 &&& 0x10 ≠ 0) _ keeps_onNeedTime
+  have h3 := keeps_ite (iin2 &&& 0x08 ≠ 0) _ keeps_onOverflow
+  exact keeps_comp _ _ (keeps_comp _ _ (keeps_comp _ _ h1 h2) h3) (keeps_setEvents _)
+
+theorem keeps_failAuto (id : AutoId) (now : Nat) : KeepsKa (·.failAuto id now) := fun _ => ⟨rfl, rfl⟩
+theorem keeps_doneAuto (id : AutoId) : KeepsKa (·.doneAuto id) := fun _ => ⟨rfl, rfl⟩
+theorem keeps_completePoll (id now : Nat) : KeepsKa (·.completePoll id now) := fun _ => ⟨rfl, rfl⟩
+
+theorem keeps_autoResponse (k : AutoKind) (iin1 now : Nat) : KeepsKa (·.autoResponse k iin1 now) := by
+  intro y
+  cases k <;> simp only [Assoc.autoResponse]
+  · split <;> exact ⟨rfl, rfl⟩
+  · exact ⟨rfl, rfl⟩
+  · exact ⟨rfl, rfl⟩
+
+-- one lemma per helper of the session
+
+theorem taskOnError_kaView (a : Acc) (dest : Nat) (t : Task) (e : TaskErr) :
+    kaView (taskOnError a dest t e).1 = kaView a.1 := by
+  unfold taskOnError
+  split
+  all_goals first
+    | rfl
+    | exact modAssoc_kaView _ _ _ (keeps_completePoll _ _)
+    | exact modAssoc_kaView _ _ _ (keeps_failAuto _ _)
+    | skip
+  split
+  · exact modAssoc_kaView _ _ _ (keeps_autoResponse _ _ _)
+  · exact modAssoc_kaView _ _ _ (keeps_failAuto _ _)
+
+theorem tsReportError_kaView (a : Acc) (dest : Nat) (uid : Option Nat) (o : Outcome) :
+    kaView (tsReportError a dest uid o).1 = kaView a.1 := by
+  unfold tsReportError
+  split
+  · exact modAssoc_kaView _ _ _ (keeps_failAuto _ _)
+  · rfl
+
+theorem readComplete_kaView (a : Acc) (dest : Nat) (t : ReadTask) :
+    kaView (readComplete a dest t).1 = kaView a.1 := by
+  unfold readComplete
+  split
+  · exact modAssoc_kaView _ _ _ (fun _ => ⟨rfl, rfl⟩)
+  · exact modAssoc_kaView _ _ _ (keeps_completePoll _ _)
+  · exact modAssoc_kaView _ _ _ (keeps_doneAuto _)
+  · rfl
+
+theorem finishRead_kaView (a : Acc) (dest : Nat) (t : ReadTask) (res : Except TaskErr Nat) :
+    kaView (finishRead a dest t res).1 = kaView a.1 := by
+  unfold finishRead
+  split
+  · split
+    · exact readComplete_kaView _ _ _
+    · exact taskOnError_kaView _ _ _ _
+  · exact taskOnError_kaView _ _ _ _
+
+theorem deliverHeader_kaView (a : Acc) (who : Who) (h : ObjHdr) :
+    kaView (deliverHeader a who h).1 = kaView a.1 := by
+  unfold deliverHeader
+  repeat' split
+  all_goals rfl
+
+theorem foldl_kaView {β : Type} (g : Acc → β → Acc) (hg : ∀ a x, kaView (g a x).1 = kaView a.1) (l : List β) (a : Acc) :
+    kaView (l.foldl g a).1 = kaView a.1 := by
+  induction l generalizing a with
+  | nil => rfl
+  | cons x t ih => rw [List.foldl_cons, ih, hg]
+
+theorem deliver_kaView (a : Acc) (who : Who) (rt : ReadType) (r : Resp) (hs : List ObjHdr) :
+    kaView (deliver a who rt r hs).1 = kaView a.1 := by
+  unfold deliver
+  simp only [emit_kaView]
+  rw [foldl_kaView _ (fun a h => deliverHeader_kaView a who h)]
+  rfl
+
+theorem doUnsolicited_kaView (a : Acc) (src : Nat) (r : Resp) :
+    kaView (doUnsolicited a src r).1 = kaView a.1 := by
+  unfold doUnsolicited
+  split
+  · rfl
+  · have h0 := modAssoc_kaView a src _ (keeps_processIin r.iin1 r.iin2)
+    generalize modAssoc a src (fun x => x.processIin r.iin1 r.iin2) = b at h0 ⊢
+    rw [← h0]
+    simp only
+    split
+    · rfl
+    · rename_i x _
+      generalize handleUnsolicited x.isIntegrityComplete x.lastUnsol r = d
+      have h1 : kaView (if d.valid = true then modAssoc b src fun y => { y with lastUnsol := some r.key } else b).1 = kaView b.1 := by
+        split
+        · exact modAssoc_kaView _ _ _ (fun _ => ⟨rfl, rfl⟩)
+        · rfl
+      generalize (if d.valid = true then modAssoc b src fun y => { y with lastUnsol := some r.key } else b) = c at h1 ⊢
+      rw [← h1]
+      repeat' split
+      all_goals simp only [emit_kaView, deliver_kaView]
+
+theorem sendRequest_kaView (a : Acc) (dest func : Nat) (objs : List Nat) :
+    kaView (sendRequest a dest func objs).1.1 = kaView a.1 := by
+  unfold sendRequest
+  split
+  · rfl
+  · simp only
+    split
+    · exact modAssoc_kaView _ _ _ (fun _ => ⟨rfl, rfl⟩)
+    · exact (emit_kaView _ _).trans (modAssoc_kaView _ _ _ (fun _ => ⟨rfl, rfl⟩))
+
+theorem runSingle_kaView (a : Acc) (dest : Nat) (t : NonReadTask) (tt : TaskType) (fc0 : Nat) :
+    kaView (runSingle a dest t tt fc0).acc.1 = kaView a.1 := by
+  unfold runSingle
+  have h := sendRequest_kaView a dest t.function t.objects
+  generalize sendRequest a dest t.function t.objects = p at h ⊢
+  obtain ⟨b, res⟩ := p
+  simp only at h
+  rw [← h]
+  cases res with
+  | error e => exact taskOnError_kaView _ _ _ _
+  | ok seq =>
+    simp only
+    split <;> rfl
+
+theorem handleResponse_kaView (a : Acc) (dest : Nat) (t : NonReadTask) (r : Resp) :
+    kaView (handleResponse a dest t r).1.1 = kaView a.1 := by
+  unfold handleResponse
+  have hd := modAssoc_kaView a dest _ (keeps_doneAuto .timeSync)
+  simp only
+  repeat' split
+  all_goals first
+    | rfl
+    | exact modAssoc_kaView _ _ _ (keeps_autoResponse _ _ _)
+    | exact tsReportError_kaView _ _ _ _
+    | exact hd
+
+/-- what crediting `src` at time `now` does to the deadlines -/
+theorem notify_kaView (s : MState) (src : Nat) :
+    kaView (notifyLinkActivity (s, []) src).1 =
+      s.assocs.map fun x => (x.addr, if x.addr = src then x.cfg.ka.map (s.now + ·) else x.nextLinkStatus) := by
+  unfold kaView notifyLinkActivity modAssoc
+  simp only [List.map_map]
+  apply List.map_congr_left
+  intro y _
+  simp only [Function.comp]
+  split <;> rfl
+
+/-- the tail of the `.waitRead` branch after the credit -/
+theorem waitRead_tail_kaView (b : Acc) (dest seq src : Nat) (t : ReadTask) (r : Resp) (v : ReadVerdict) :
+    kaView (match v with
+      | .unsolicited => Step.waiting (doUnsolicited b src r)
+      | .ignore => Step.waiting b
+      | .fail e iinDone =>
+        let a := if iinDone then modAssoc b dest (·.processIin r.iin1 r.iin2) else b
+        Step.appDone (finishRead a dest t (.error e)) dest t.taskType 1 (.error e)
+      | .accept confirm final =>
+        let a := modAssoc b dest (·.processIin r.iin1 r.iin2)
+        let a := deliver a (whoOf dest t) (rtOf t) r (r.objects.getD [])
+        let a := if confirm then emit a (.tx dest [0xC0 + seq, 0]) else a
+        if final then Step.appDone (finishRead a dest t (.ok seq)) dest t.taskType 1 (.ok seq)
+        else
+          match a.1.getAssoc dest with
+          | none => Step.appDone (finishRead a dest t (.error .noAssociation)) dest t.taskType 1 (.error .noAssociation)
+          | some x =>
+            let a := modAssoc a dest fun y => { y with seq := seq4Next y.seq }
+            Step.waiting (setMode a (.waitRead dest t x.seq false (a.1.now + x.cfg.rto)))).acc.1 = kaView b.1 := by
+  have hI := modAssoc_kaView b dest _ (keeps_processIin r.iin1 r.iin2)
+  cases v with
+  | unsolicited => exact doUnsolicited_kaView _ _ _
+  | ignore => rfl
+  | fail e iinDone =>
+    cases iinDone <;> simp only [Step.acc]
+    · exact finishRead_kaView _ _ _ _
+    · exact (finishRead_kaView _ _ _ _).trans hI
+  | accept confirm final =>
+    simp only
+    have hD := deliver_kaView (modAssoc b dest (·.processIin r.iin1 r.iin2)) (whoOf dest t) (rtOf t) r (r.objects.getD [])
+    rw [hI] at hD
+    generalize deliver (modAssoc b dest (·.processIin r.iin1 r.iin2)) (whoOf dest t) (rtOf t) r (r.objects.getD []) = c at hD ⊢
+    have hE : kaView (if confirm = true then emit c (.tx dest [0xC0 + seq, 0]) else c).1 = kaView b.1 := by
+      split
+      · exact hD
+      · exact hD
+    generalize (if confirm = true then emit c (.tx dest [0xC0 + seq, 0]) else c) = d at hE ⊢
+    rw [← hE]
+    split
+    · simp only [Step.acc]
+      exact finishRead_kaView _ _ _ _
+    · split
+      · simp only [Step.acc]
+        exact finishRead_kaView _ _ _ _
+      · simp only [Step.acc]
+        exact (setMode_kaView _ _).trans (modAssoc_kaView _ _ _ (fun _ => ⟨rfl, rfl⟩))
+
+/-- the tail of the `.waitNonRead` branch after the credit -/
+theorem waitNonRead_tail_kaView (b : Acc) (dest seq src fc0 : Nat) (t : NonReadTask) (r : Resp) (v : NonReadVerdict) :
+    kaView (match v with
+      | .unsolicited => Step.waiting (doUnsolicited b src r)
+      | .ignore => Step.waiting b
+      | .fail e => Step.appDone (taskOnError b dest (.nonRead t) e) dest t.taskType fc0 (.error e)
+      | .accept =>
+        let a := if r.ctrl.con then emit b (.tx dest [0xC0 + seq, 0]) else b
+        match a.1.getAssoc dest with
+        | none => Step.appDone (taskOnError a dest (.nonRead t) .noAssociation) dest t.taskType fc0 (.error .noAssociation)
+        | some _ =>
+          let a := modAssoc a dest (·.processIin r.iin1 r.iin2)
+          match handleResponse a dest t r with
+          | (a, .error e) => Step.appDone a dest t.taskType fc0 (.error e)
+          | (a, .ok none) => Step.appDone a dest t.taskType fc0 (.ok seq)
+          | (a, .ok (some next)) => runSingle a dest next t.taskType fc0).acc.1 = kaView b.1 := by
+  cases v with
+  | unsolicited => exact doUnsolicited_kaView _ _ _
+  | ignore => rfl
+  | fail e => simp only [Step.acc]; exact taskOnError_kaView _ _ _ _
+  | accept =>
+    simp only
+    have hE : kaView (if r.ctrl.con = true then emit b (.tx dest [0xC0 + seq, 0]) else b).1 = kaView b.1 := by
+      split <;> rfl
+    generalize (if r.ctrl.con = true then emit b (.tx dest [0xC0 + seq, 0]) else b) = c at hE ⊢
+    rw [← hE]
+    split
+    · simp only [Step.acc]; exact taskOnError_kaView _ _ _ _
+    · have hI := modAssoc_kaView c dest _ (keeps_processIin r.iin1 r.iin2)
+      generalize modAssoc c dest (fun x => x.processIin r.iin1 r.iin2) = d at hI ⊢
+      rw [← hI]
+      have hH := handleResponse_kaView d dest t r
+      generalize handleResponse d dest t r = p at hH ⊢
+      obtain ⟨e, res⟩ := p
+      simp only at hH
+      rw [← hH]
+      split
+      · rename_i heq; cases heq; rfl
+      · rename_i heq; cases heq; rfl
+      · rename_i heq; cases heq; exact runSingle_kaView _ _ _ _ _
+
+/-- MAIN (step level): whatever else the fragment causes (unsolicited handling, ending or continuing a task), the
+    deadlines afterwards are those of "credit the source" — in EVERY online mode -/
+theorem fragment_credits_source (s : MState) (src : Nat) (frag : List Nat) (r : Resp)
+    (hp : parseResponse frag = some r) (hon : match s.mode with | .offline | .exited => False | _ => True) :
+    kaView (onFragment (s, []) src frag).acc.1 = kaView (notifyLinkActivity (s, []) src).1 := by
+  unfold onFragment
+  cases hm : s.mode with
+  | offline => simp [hm] at hon
+  | exited => simp [hm] at hon
+  | idle w =>
+    simp only [hp, Step.acc]
+    split
+    · exact doUnsolicited_kaView _ _ _
+    · rfl
+  | waitLink d uid dl =>
+    simp only [hp, Step.acc]
+    split
+    · exact doUnsolicited_kaView _ _ _
+    · rfl
+  | waitRead dest t seq isFirst dl =>
+    simp only [hp]
+    exact waitRead_tail_kaView (notifyLinkActivity (s, []) src) dest seq src t r _
+  | waitNonRead dest t seq fc0 dl =>
+    simp only [hp]
+    exact waitNonRead_tail_kaView (notifyLinkActivity (s, []) src) dest seq src fc0 t r _
+
+/-- complement 1: without a session nothing is credited -/
+theorem fragment_offline_no_credit (s : MState) (src : Nat) (frag : List Nat)
+    (hoff : match s.mode with | .offline | .exited => True | _ => False) :
+    kaView (onFragment (s, []) src frag).acc.1 = kaView s := by
+  unfold onFragment
+  cases hm : s.mode <;> simp [hm] at hoff <;> rfl
+
+/-- complement 2: a fragment that does not parse as a response is not credited to anybody -/
+theorem fragment_unparsed_no_credit (s : MState) (src : Nat) (frag : List Nat) (hp : parseResponse frag = none) :
+    kaView (onFragment (s, []) src frag).acc.1 = kaView s := by
+  unfold onFragment
+  cases hm : s.mode with
+  | offline => rfl
+  | exited => rfl
+  | idle w => simp only [hp]; rfl
+  | waitLink d uid dl => simp only [hp]; rfl
+  | waitRead dest t seq isFirst dl => simp only [hp, Step.acc]; exact finishRead_kaView _ _ _ _
+  | waitNonRead dest t seq fc0 dl => simp only [hp, Step.acc]; exact taskOnError_kaView _ _ _ _
+
+/-- the D25 situation: a request to 1024 is outstanding, an unsolicited response arrives from 1025 — 1025's deadline is
+    re-armed (now 100 + 3000), 1024's stays -/
+def kaDemo : MState :=
+  { now := 100, mode := .waitNonRead 1024 (.auto .disableUnsol 7) 0 21 5100, ring := [1024, 1025],
+    assocs := [{ addr := 1024, cfg := { ka := some 2000 }, nextLinkStatus := some 1500 },
+               { addr := 1025, cfg := { ka := some 3000 }, nextLinkStatus := some 1700 }] }
+
+example : parseResponse [0xF0, 130, 0, 0] = some ⟨AppCtrl.ofNat 0xF0, true, 0, 0, [], some []⟩ ∧
+    (match kaDemo.mode with | .offline | .exited => False | _ => True) ∧
+    kaView (onFragment (kaDemo, []) 1025 [0xF0, 130, 0, 0]).acc.1 = [(1024, some 1500), (1025, some 3100)] :=
+  ⟨rfl, trivial, by decide⟩
+
+example : (match ({} : MState).mode with | .offline | .exited => True | _ => False) := trivial
+
+example : parseResponse [0xC0, 1, 0x3C, 0x02, 0x06] = none ∧
+    kaView (onFragment (kaDemo, []) 1025 [0xC0, 1, 0x3C, 0x02, 0x06]).acc.1 = [(1024, some 1500), (1025, some 1700)] :=
+  ⟨rfl, by decide⟩
+
+/-- link status frames: the same credit rule (the model always had it right) -/
+theorem linkmsg_credits_source (s : MState) (src : Nat)
+    (hon : match s.mode with | .offline | .exited => False | _ => True) :
+    kaView (onLinkMsg (s, []) src).acc.1 = kaView (notifyLinkActivity (s, []) src).1 := by
+  unfold onLinkMsg
+  cases hm : s.mode <;> simp [hm] at hon <;> rfl
+
+example : kaView (onLinkMsg (kaDemo, []) 1025).acc.1 = [(1024, some 1500), (1025, some 3100)] := by decide
+
+-- ------------------------------------------------------------------------------------------
+-- lift to `Master.step`: the scheduler and the end of a session keep the deadlines
+-- ------------------------------------------------------------------------------------------
+
+theorem startTask_kaView (a : Acc) (dest : Nat) (t : Task) : kaView (startTask a dest t).1.1 = kaView a.1 := by
+  unfold startTask
+  split
+  · split
+    · rfl
+    · exact tsReportError_kaView _ _ _ _
+  · rfl
+
+theorem priorityTask_kaView (fuel : Nat) (a : Acc) (addr : Nat) : kaView (priorityTask fuel a addr).1.1 = kaView a.1 := by
+  induction fuel generalizing a with
+  | zero => rfl
+  | succ n ih =>
+    unfold priorityTask
+    cases hx : a.1.getAssoc addr with
+    | none => rfl
+    | some x =>
+      simp only
+      cases hq : x.queue with
+      | nil => rfl
+      | cons t rest =>
+        simp only
+        have hm := modAssoc_kaView a addr (fun y => { y with queue := rest }) (fun _ => ⟨rfl, rfl⟩)
+        have hb := startTask_kaView (modAssoc a addr fun y => { y with queue := rest }) addr t
+        rw [hm] at hb
+        cases hs : startTask (modAssoc a addr fun y => { y with queue := rest }) addr t with
+        | mk b ot =>
+          rw [hs] at hb
+          cases ot with
+          | some tk' => exact hb
+          | none =>
+            simp only
+            rw [ih b]
+            exact hb
+
+theorem assocNextTask_kaView (fuel : Nat) (a : Acc) (addr : Nat) : kaView (assocNextTask fuel a addr).1.1 = kaView a.1 := by
+  induction fuel generalizing a with
+  | zero => rfl
+  | succ n ih =>
+    unfold assocNextTask
+    cases hx : a.1.getAssoc addr with
+    | none => rfl
+    | some x =>
+      simp only
+      cases hn : x.getNextTask a.1.now with
+      | none => rfl
+      | notBefore t' => rfl
+      | now tk =>
+        simp only
+        have hb := startTask_kaView a addr tk
+        cases hs : startTask a addr tk with
+        | mk b ot =>
+          rw [hs] at hb
+          cases ot with
+          | some tk' => exact hb
+          | none =>
+            simp only
+            rw [ih b]
+            exact hb
+
+theorem phase1_kaView (ring : List Nat) (a : Acc) : kaView (phase1 ring a).1.1 = kaView a.1 := by
+  induction ring generalizing a with
+  | nil => rfl
+  | cons addr rest ih =>
+    unfold phase1
+    cases hx : a.1.getAssoc addr with
+    | none => exact ih a
+    | some x =>
+      simp only
+      have hp := priorityTask_kaView (x.queue.length + 1) a addr
+      cases hs : priorityTask (x.queue.length + 1) a addr with
+      | mk b ot =>
+        rw [hs] at hp
+        cases ot with
+        | some t => exact hp
+        | none =>
+          simp only
+          rw [ih b]
+          exact hp
+
+theorem phase2_kaView (ring : List Nat) (e : Option Nat) (a : Acc) : kaView (phase2 ring e a).1.1 = kaView a.1 := by
+  induction ring generalizing e a with
+  | nil => rfl
+  | cons addr rest ih =>
+    unfold phase2
+    have hp := assocNextTask_kaView 8 a addr
+    cases hs : assocNextTask 8 a addr with
+    | mk b nx =>
+      rw [hs] at hp
+      cases nx with
+      | now t => exact hp
+      | notBefore t => simp only; rw [ih]; exact hp
+      | none => simp only; rw [ih]; exact hp
+
+theorem nextTask_kaView (a : Acc) : kaView (nextTask a).1.1 = kaView a.1 := by
+  unfold nextTask
+  have hp := phase1_kaView a.1.ring a
+  cases hs : phase1 a.1.ring a with
+  | mk b ox =>
+    rw [hs] at hp
+    cases ox with
+    | some x => exact hp
+    | none => simp only; rw [phase2_kaView]; exact hp
+
+theorem endSession_kaView (a : Acc) (why : StopWhy) : kaView (endSession a why).1 = kaView a.1 := by
+  unfold endSession
+  have key : ∀ (d : Acc) (addr : Nat), kaView (modAssoc d addr fun y =>
+      { y with queue := [], auto := {}, integrityDone := false, lastUnsol := none }).1 = kaView d.1 :=
+    fun d addr => modAssoc_kaView d addr _ (fun _ => ⟨rfl, rfl⟩)
+  have hf : ∀ (l : List Assoc) (b : Acc), kaView (l.foldl (fun a x =>
+      let a := x.queue.foldl (fun a t => taskOnError a x.addr t why.err) a
+      modAssoc a x.addr fun y => { y with queue := [], auto := {}, integrityDone := false, lastUnsol := none }) b).1 = kaView b.1 := by
+    intro l b
+    apply foldl_kaView
+    intro c x
+    simp only
+    rw [key]
+    exact foldl_kaView _ (fun c t => taskOnError_kaView c x.addr t why.err) _ _
+  have h := hf a.1.assocs a
+  simp only at h ⊢
+  cases why <;> simp only [setMode_kaView, emit_kaView] <;> exact h
+
+theorem notifyResult_kaView (a : Acc) (dest : Nat) (tt : TaskType) (fc : Nat) (res : Except TaskErr Nat) :
+    kaView (notifyResult a dest tt fc res).1 = kaView a.1 := by
+  unfold notifyResult
+  split <;> rfl
+
+theorem beginTask_kaView (a : Acc) (dest : Nat) (t : Task) : kaView (beginTask a dest t).acc.1 = kaView a.1 := by
+  unfold beginTask
+  split
+  · rfl
+  · rename_i x _
+    cases t with
+    | linkStatus uid => rfl
+    | read rt =>
+      simp only
+      have h := sendRequest_kaView (emit a (.taskStart dest rt.taskType 1 x.seq)) dest 1 (classHeaders rt.classes)
+      generalize sendRequest (emit a (.taskStart dest rt.taskType 1 x.seq)) dest 1 (classHeaders rt.classes) = p at h ⊢
+      obtain ⟨b, res⟩ := p
+      rw [emit_kaView] at h
+      simp only at h
+      rw [← h]
+      cases res with
+      | error e => simp only [Step.acc]; exact finishRead_kaView _ _ _ _
+      | ok seq => rfl
+    | nonRead nt =>
+      simp only
+      exact runSingle_kaView _ _ _ _ _
+
+/-- the main loop of `run` never moves a keep-alive deadline -/
+theorem resolve_kaView (fuel : Nat) (st : Step) : kaView (resolve fuel st).1 = kaView st.acc.1 := by
+  induction fuel generalizing st with
+  | zero => unfold resolve; cases st <;> rfl
+  | succ n ih =>
+    unfold resolve
+    cases st with
+    | waiting a => rfl
+    | stop a why => exact endSession_kaView _ _
+    | appDone a dest tt fc res =>
+      simp only [Step.acc]
+      have hn := notifyResult_kaView a dest tt fc res
+      generalize notifyResult a dest tt fc res = b at hn ⊢
+      rw [← hn]
+      cases res with
+      | ok v => simp only; rw [ih]; rfl
+      | error e =>
+        simp only
+        split
+        · exact endSession_kaView _ _
+        · rw [ih]; rfl
+    | linkDone a uid res =>
+      simp only [Step.acc]
+      have hc : kaView (match uid with
+          | some u => complete a u (match res with | none => .ok | some e => .task e)
+          | none => a).1 = kaView a.1 := by
+        cases uid <;> rfl
+      generalize (match uid with
+          | some u => complete a u (match res with | none => .ok | some e => .task e)
+          | none => a) = b at hc ⊢
+      rw [← hc]
+      split
+      · exact endSession_kaView _ _
+      · rw [ih]; rfl
+    | loop a =>
+      simp only [Step.acc]
+      have hn := nextTask_kaView a
+      generalize nextTask a = p at hn ⊢
+      obtain ⟨b, nx⟩ := p
+      simp only at hn
+      rw [← hn]
+      cases nx with
+      | none => rfl
+      | notBefore t =>
+        simp only
+        split
+        · rw [ih]; rfl
+        · rfl
+      | now x =>
+        obtain ⟨dest, task⟩ := x
+        simp only
+        rw [ih]
+        exact beginTask_kaView _ _ _
+
+theorem onMessage_none_kaView (a : Acc) : kaView (onMessage a none).acc.1 = kaView a.1 := by
+  unfold onMessage
+  simp only
+  split
+  · simp only [Step.acc]; exact finishRead_kaView _ _ _ _
+  · simp only [Step.acc]; exact taskOnError_kaView _ _ _ _
+  · rfl
+  · rfl
+  · split <;> rfl
+  · rfl
+
+theorem checkShutdown_kaView (a : Acc) : kaView (checkShutdown a).1 = kaView a.1 := by
+  unfold checkShutdown
+  split
+  · split
+    · rfl
+    · rw [resolve_kaView]; exact onMessage_none_kaView a
+  · rfl
+
+/-- STRETCH (model step level): a fragment for the master from a unicast source re-arms exactly the source's deadline,
+    whatever the session goes on to do afterwards (end of task, next task, keep-alive request, shutdown) -/
+theorem step_rx_credits_source (s : MState) (src dst : Nat) (frag : List Nat) (r : Resp)
+    (hdst : dst = masterAddr) (hsrc : src < 0xFFF0) (hne : frag ≠ []) (hlen : frag.length ≤ 2048)
+    (hp : parseResponse frag = some r) (hon : match s.mode with | .offline | .exited => False | _ => True) :
+    kaView (Master.step s (.rx src dst frag)).1 = kaView (notifyLinkActivity (s, []) src).1 := by
+  unfold Master.step
+  have hc : ¬ (dst ≠ masterAddr ∨ src ≥ 0xFFF0 ∨ frag.isEmpty = true ∨ frag.length > 2048) := by
+    intro h
+    rcases h with h | h | h | h
+    · exact h hdst
+    · omega
+    · exact hne (List.isEmpty_iff.1 h)
+    · omega
+  simp only [hc, if_false]
+  rw [checkShutdown_kaView, resolve_kaView]
+  exact fragment_credits_source s src frag r hp hon
+
+example : kaView (Master.step kaDemo (.rx 1025 masterAddr [0xF0, 130, 0, 0])).1 = [(1024, some 1500), (1025, some 3100)] := by
+  decide
+
+end Dnp3.Proofs.Master
+-- ===== END C19 keep-alive credit =====
+
+-- ===== BEGIN C15 step-level confirms =====
+namespace Dnp3.Proofs.Master
+open Dnp3 Dnp3.Master
+
+/-! ## step-level "confirm exactly when" theorems (C15)
+
+`confirmsOf (Step.outs (onFragment (s, []) src frag))` is computed for every mode: the confirms a fragment
+causes are exactly the ones the decision functions (`processReadResponse`, `validateNonRead`,
+`handleUnsolicited`) prescribe. -/
+
+/-- example state: one association (address 10, default configuration) and the given mode -/
+def exMaster (integrityDone : Bool) (mode : Mode) : MState :=
+  { assocs := [{ addr := 10, cfg := {}, integrityDone := integrityDone }], ring := [10], mode := mode }
+
+
+theorem confirmsOf_nil : confirmsOf [] = [] := rfl
+
+theorem confirmsOf_tx_confirm (d c : Nat) : confirmsOf [MOut.tx d [c, 0]] = [(d, c)] := rfl
+
+theorem confirmsOf_tx_request (d seq func : Nat) (objs : List Nat) (hf : func ≠ 0) :
+    confirmsOf [MOut.tx d (requestBytes seq func objs)] = [] := by
+  cases func with
+  | zero => exact absurd rfl hf
+  | succ n => cases objs <;> simp [confirmsOf, requestBytes]
+
+example : confirmsOf [MOut.tx 10 (requestBytes 3 21 [0x3c, 0x02, 0x06])] = [] := confirmsOf_tx_request 10 3 21 _ (by decide)
+
+theorem function_ne_zero (t : NonReadTask) : t.function ≠ 0 := by
+  unfold NonReadTask.function
+  split <;> try simp
+  split <;> simp
+
+theorem sendRequest_confirms (a : Acc) (dest func : Nat) (objs : List Nat) (hf : func ≠ 0) :
+    confirmsOf (sendRequest a dest func objs).1.2 = confirmsOf a.2 := by
+  unfold sendRequest
+  split
+  · rfl
+  · dsimp only
+    split
+    · rfl
+    · simp only [emit_outs, modAssoc_outs, confirmsOf_append, confirmsOf_tx_request _ _ _ _ hf, List.append_nil]
+
+example : confirmsOf (sendRequest (exMaster true (.idle none), []) 10 21 [0x3c, 0x02, 0x06]).1.2 = [] :=
+  sendRequest_confirms _ 10 21 _ (by decide)
+
+theorem runSingle_confirms (a : Acc) (dest : Nat) (t : NonReadTask) (tt : TaskType) (fc0 : Nat) :
+    confirmsOf (Step.outs (runSingle a dest t tt fc0)) = confirmsOf a.2 := by
+  have h := sendRequest_confirms a dest t.function t.objects (function_ne_zero t)
+  unfold runSingle
+  generalize sendRequest a dest t.function t.objects = p at h
+  obtain ⟨a', res⟩ := p
+  cases res with
+  | error e => simpa [Step.outs, Step.acc, taskOnError_confirms] using h
+  | ok seq =>
+    simp only
+    split <;> simpa [Step.outs, Step.acc] using h
+
+theorem tsReportError_confirms (a : Acc) (dest : Nat) (uid : Option Nat) (o : Outcome) :
+    confirmsOf (tsReportError a dest uid o).2 = confirmsOf a.2 := by
+  unfold tsReportError
+  split <;> simp [complete_confirms]
+
+theorem handleResponse_confirms (a : Acc) (dest : Nat) (t : NonReadTask) (r : Resp) :
+    confirmsOf (handleResponse a dest t r).1.2 = confirmsOf a.2 := by
+  unfold handleResponse
+  repeat' split
+  all_goals simp only [complete_confirms, tsReportError_confirms, modAssoc_outs]
+  all_goals repeat' split
+  all_goals simp only [tsReportError_confirms]
+
+
+theorem nonread_not_unsolicited (dest seq src : Nat) (r : Resp) (hu : r.unsol = false) :
+    validateNonRead dest seq src r ≠ .unsolicited := by
+  unfold validateNonRead
+  simp only [hu, Bool.false_eq_true, if_false]
+  repeat' split
+  all_goals simp
+
+example : validateNonRead 10 3 10 ⟨AppCtrl.ofNat 0xE3, false, 0, 0, [], some []⟩ ≠ .unsolicited :=
+  nonread_not_unsolicited 10 3 10 _ rfl
+
+theorem nonread_confirms (s : MState) (dest seq fc0 dl : Nat) (t : NonReadTask) (src : Nat) (frag : List Nat) (r : Resp)
+    (hm : s.mode = .waitNonRead dest t seq fc0 dl) (hp : parseResponse frag = some r) (hu : r.unsol = false) :
+    confirmsOf (Step.outs (onFragment (s, []) src frag)) =
+      (match validateNonRead dest seq src r with
+       | .accept => if r.ctrl.con then [(dest, 0xC0 + seq)] else []
+       | _ => []) := by
+  unfold onFragment
+  simp only [hm, hp]
+  have hnu := nonread_not_unsolicited dest seq src r hu
+  generalize hv : validateNonRead dest seq src r = v at hnu
+  cases v with
+  | unsolicited => exact absurd rfl hnu
+  | ignore => simp only [Step.outs, Step.acc, notify_outs, confirmsOf_nil]
+  | fail e => simp only [Step.outs, Step.acc, taskOnError_confirms, notify_outs, confirmsOf_nil]
+  | accept =>
+    simp only
+    have h1 : confirmsOf (if r.ctrl.con = true then emit (notifyLinkActivity (s, []) src) (MOut.tx dest [0xC0 + seq, 0])
+        else notifyLinkActivity (s, []) src).2 = if r.ctrl.con then [(dest, 0xC0 + seq)] else [] := by
+      cases r.ctrl.con
+      · simp only [Bool.false_eq_true, if_false, notify_outs, confirmsOf_nil]
+      · simp only [if_true, emit_outs, notify_outs, List.nil_append, confirmsOf_tx_confirm]
+    generalize (if r.ctrl.con = true then emit (notifyLinkActivity (s, []) src) (MOut.tx dest [0xC0 + seq, 0])
+        else notifyLinkActivity (s, []) src) = a at h1
+    rw [← h1]
+    split
+    · simp only [Step.outs, Step.acc, taskOnError_confirms]
+    · have h := handleResponse_confirms (modAssoc a dest (·.processIin r.iin1 r.iin2)) dest t r
+      generalize handleResponse (modAssoc a dest (·.processIin r.iin1 r.iin2)) dest t r = p at h
+      obtain ⟨a', res⟩ := p
+      cases res with
+      | error e => simpa [Step.outs, Step.acc] using h
+      | ok o =>
+        cases o with
+        | none => simpa [Step.outs, Step.acc] using h
+        | some next => simpa [runSingle_confirms] using h
+
+
+/-- a null response (FIR FIN CON, sequence 3) to the DISABLE_UNSOLICITED request in flight is confirmed -/
+example : confirmsOf (Step.outs (onFragment (exMaster true (.waitNonRead 10 (.auto .disableUnsol 7) 3 21 5000), [])
+    10 [0xE3, 129, 0, 0])) = [(10, 0xC3)] :=
+  nonread_confirms _ 10 3 21 5000 (.auto .disableUnsol 7) 10 [0xE3, 129, 0, 0]
+    ⟨AppCtrl.ofNat 0xE3, false, 0, 0, [], some []⟩ rfl rfl rfl
+
+/-- the same response without CON, or with a stale sequence number, is not confirmed -/
+example : confirmsOf (Step.outs (onFragment (exMaster true (.waitNonRead 10 (.auto .disableUnsol 7) 3 21 5000), [])
+    10 [0xC3, 129, 0, 0])) = [] ∧
+    confirmsOf (Step.outs (onFragment (exMaster true (.waitNonRead 10 (.auto .disableUnsol 7) 3 21 5000), [])
+    10 [0xE2, 129, 0, 0])) = [] :=
+  ⟨nonread_confirms _ 10 3 21 5000 (.auto .disableUnsol 7) 10 [0xC3, 129, 0, 0]
+    ⟨AppCtrl.ofNat 0xC3, false, 0, 0, [], some []⟩ rfl rfl rfl,
+   nonread_confirms _ 10 3 21 5000 (.auto .disableUnsol 7) 10 [0xE2, 129, 0, 0]
+    ⟨AppCtrl.ofNat 0xE2, false, 0, 0, [], some []⟩ rfl rfl rfl⟩
+
+theorem getAssoc_modAssoc (a : Acc) (addr : Nat) (f : Assoc → Assoc) (hf : ∀ y, (f y).addr = y.addr) :
+    (modAssoc a addr f).1.getAssoc addr = (a.1.getAssoc addr).map f := by
+  unfold modAssoc MState.getAssoc
+  simp only
+  induction a.1.assocs with
+  | nil => rfl
+  | cons y ys ih =>
+    simp only [List.map_cons, List.find?_cons]
+    by_cases hy : y.addr = addr
+    · simp [hy, hf]
+    · simp [hy, ih]
+
+example : (modAssoc (exMaster true (.idle none), []) 10 (·.onLinkActivity 7)).1.getAssoc 10 =
+    ((exMaster true (.idle none)).getAssoc 10).map (·.onLinkActivity 7) :=
+  getAssoc_modAssoc _ 10 _ (fun _ => rfl)
+
+theorem onRestartObserved_keep (x : Assoc) :
+    x.onRestartObserved.addr = x.addr ∧ x.onRestartObserved.lastUnsol = x.lastUnsol ∧ x.onRestartObserved.cfg = x.cfg := by
+  unfold Assoc.onRestartObserved
+  split <;> exact ⟨rfl, rfl, rfl⟩
+
+theorem onNeedTime_keep (x : Assoc) :
+    x.onNeedTime.addr = x.addr ∧ x.onNeedTime.lastUnsol = x.lastUnsol ∧ x.onNeedTime.cfg = x.cfg := ⟨rfl, rfl, rfl⟩
+
+theorem onOverflow_keep (x : Assoc) :
+    x.onOverflow.addr = x.addr ∧ x.onOverflow.lastUnsol = x.lastUnsol ∧ x.onOverflow.cfg = x.cfg := by
+  unfold Assoc.onOverflow
+  split <;> exact ⟨rfl, rfl, rfl⟩
+
+theorem setEvents_keep (x : Assoc) (ev : Nat) :
+    (x.setEvents ev).addr = x.addr ∧ (x.setEvents ev).lastUnsol = x.lastUnsol ∧ (x.setEvents ev).cfg = x.cfg := by
+  unfold Assoc.setEvents
+  dsimp only
+  split <;> exact ⟨rfl, rfl, rfl⟩
+
+theorem processIin_keep (x : Assoc) (i1 i2 : Nat) :
+    (x.processIin i1 i2).addr = x.addr ∧ (x.processIin i1 i2).lastUnsol = x.lastUnsol ∧
+      (x.processIin i1 i2).cfg = x.cfg := by
+  unfold Assoc.processIin
+  dsimp only
+  split <;> split <;> split <;>
+    simp only [(setEvents_keep _ _).1, (setEvents_keep _ _).2.1, (setEvents_keep _ _).2.2, (onOverflow_keep _).1, (onOverflow_keep _).2.1, (onOverflow_keep _).2.2,
+      (onNeedTime_keep _).1, (onNeedTime_keep _).2.1, (onNeedTime_keep _).2.2,
+      (onRestartObserved_keep _).1, (onRestartObserved_keep _).2.1, (onRestartObserved_keep _).2.2, and_self]
+
+theorem processIin_addr (x : Assoc) (i1 i2 : Nat) : (x.processIin i1 i2).addr = x.addr := (processIin_keep x i1 i2).1
+
+theorem processIin_lastUnsol (x : Assoc) (i1 i2 : Nat) : (x.processIin i1 i2).lastUnsol = x.lastUnsol :=
+  (processIin_keep x i1 i2).2.1
+
+theorem onRestartObserved_onLinkActivity (x : Assoc) (n : Nat) :
+    (x.onLinkActivity n).onRestartObserved = x.onRestartObserved.onLinkActivity n := by
+  unfold Assoc.onRestartObserved Assoc.onLinkActivity
+  dsimp only
+  split <;> rfl
+
+theorem onNeedTime_onLinkActivity (x : Assoc) (n : Nat) :
+    (x.onLinkActivity n).onNeedTime = x.onNeedTime.onLinkActivity n := rfl
+
+theorem onOverflow_onLinkActivity (x : Assoc) (n : Nat) :
+    (x.onLinkActivity n).onOverflow = x.onOverflow.onLinkActivity n := by
+  unfold Assoc.onOverflow Assoc.onLinkActivity
+  dsimp only
+  split <;> rfl
+
+theorem setEvents_onLinkActivity (x : Assoc) (n ev : Nat) :
+    (x.onLinkActivity n).setEvents ev = (x.setEvents ev).onLinkActivity n := by
+  unfold Assoc.setEvents Assoc.onLinkActivity
+  dsimp only
+  split <;> rfl
+
+theorem processIin_onLinkActivity (x : Assoc) (n i1 i2 : Nat) :
+    (x.onLinkActivity n).processIin i1 i2 = (x.processIin i1 i2).onLinkActivity n := by
+  unfold Assoc.processIin
+  dsimp only
+  split <;> split <;> split <;>
+    simp only [onRestartObserved_onLinkActivity, onNeedTime_onLinkActivity, onOverflow_onLinkActivity,
+      setEvents_onLinkActivity]
+
+
+end Dnp3.Proofs.Master
+
+namespace Dnp3.Master
+
+/-- the decision `doUnsolicited` takes for `r` on association `x` -/
+def unsolDecision (x : Assoc) (r : Resp) : UnsolDecision :=
+  handleUnsolicited (x.processIin r.iin1 r.iin2).isIntegrityComplete (x.processIin r.iin1 r.iin2).lastUnsol r
+
+end Dnp3.Master
+
+namespace Dnp3.Proofs.Master
+open Dnp3 Dnp3.Master
+
+theorem unsolDecision_onLinkActivity (x : Assoc) (n : Nat) (r : Resp) :
+    unsolDecision (x.onLinkActivity n) r = unsolDecision x r := by
+  unfold unsolDecision
+  rw [processIin_onLinkActivity]
+  rfl
+
+theorem doUnsolicited_confirms (a : Acc) (src : Nat) (r : Resp) :
+    confirmsOf (doUnsolicited a src r).2 = confirmsOf a.2 ++
+      (match a.1.getAssoc src with
+       | none => []
+       | some x => if (unsolDecision x r).confirm then [(src, 0xD0 + r.ctrl.seq)] else []) := by
+  unfold doUnsolicited
+  cases hx : a.1.getAssoc src with
+  | none => simp
+  | some x =>
+    simp only
+    rw [getAssoc_modAssoc a src _ (fun y => processIin_addr y _ _), hx]
+    simp only [Option.map_some]
+    have hd : handleUnsolicited (x.processIin r.iin1 r.iin2).isIntegrityComplete
+        (x.processIin r.iin1 r.iin2).lastUnsol r = unsolDecision x r := rfl
+    rw [hd]
+    generalize unsolDecision x r = d
+    obtain ⟨v, dup, dl, c⟩ := d
+    have hu : ∀ b, confirmsOf [MOut.unsol src b r.ctrl.seq] = [] := fun _ => rfl
+    cases v <;> cases dup <;> cases c <;> cases r.objects <;>
+      simp only [Bool.false_eq_true, if_false, if_true, Bool.not_false, Bool.not_true, emit_outs, modAssoc_outs,
+        confirmsOf_append, confirmsOf_tx_confirm, hu, List.append_nil, deliver_confirms]
+
+theorem handleUnsolicited_invalid (ic : Bool) (l : Option UnsolKey) (r : Resp)
+    (hv : (handleUnsolicited ic l r).valid = false) : handleUnsolicited ic l r = ⟨false, false, false, false⟩ := by
+  unfold handleUnsolicited at hv ⊢
+  repeat' split
+  all_goals simp_all
+
+example : handleUnsolicited true none ⟨AppCtrl.ofNat 0xF5, true, 0, 0, [99], none⟩ = ⟨false, false, false, false⟩ :=
+  handleUnsolicited_invalid true none _ (by decide)
+
+/-- a fragment the decision rejects (`valid = false`: objects do not parse, or non-empty before the integrity
+    poll completed) only has its IIN processed: no delivery, no `unsol` callback, no confirm -/
+theorem doUnsolicited_invalid (a : Acc) (src : Nat) (r : Resp) (x : Assoc) (hx : a.1.getAssoc src = some x)
+    (hv : (unsolDecision x r).valid = false) :
+    doUnsolicited a src r = modAssoc a src (·.processIin r.iin1 r.iin2) := by
+  have hd := handleUnsolicited_invalid _ _ r hv
+  unfold doUnsolicited
+  simp only [hx]
+  rw [getAssoc_modAssoc a src _ (fun y => processIin_addr y _ _), hx]
+  simp only [Option.map_some, hd]
+  rfl
+
+/-- an unsolicited response whose objects do not parse (`[99]`) only has its IIN processed -/
+example : doUnsolicited (exMaster true (.idle none), []) 10 ⟨AppCtrl.ofNat 0xF5, true, 0, 0, [99], none⟩ =
+    modAssoc (exMaster true (.idle none), []) 10 (·.processIin 0 0) :=
+  doUnsolicited_invalid _ 10 _ { addr := 10, cfg := {}, integrityDone := true } rfl (by decide)
+
+theorem doUnsolicited_invalid_outs (a : Acc) (src : Nat) (r : Resp) (x : Assoc) (hx : a.1.getAssoc src = some x)
+    (hv : (unsolDecision x r).valid = false) : (doUnsolicited a src r).2 = a.2 := by
+  rw [doUnsolicited_invalid a src r x hx hv]; rfl
+
+/-- events (g2v1, one item) before the integrity poll completed: nothing is delivered, reported or confirmed -/
+example : (doUnsolicited (exMaster false (.idle none), []) 10
+    ⟨AppCtrl.ofNat 0xF5, true, 0, 0, [2, 1, 0x17, 1, 0, 0x81], some [⟨2, 1, 0x17, 1, 0, [0, 0x81]⟩]⟩).2 = [] :=
+  doUnsolicited_invalid_outs _ 10 _ { addr := 10, cfg := {}, integrityDone := false } rfl (by decide)
+
+theorem doUnsolicited_invalid_assoc (a : Acc) (src : Nat) (r : Resp) (x : Assoc) (hx : a.1.getAssoc src = some x)
+    (hv : (unsolDecision x r).valid = false) :
+    (doUnsolicited a src r).1.getAssoc src = some (x.processIin r.iin1 r.iin2) := by
+  rw [doUnsolicited_invalid a src r x hx hv, getAssoc_modAssoc a src _ (fun y => processIin_addr y _ _), hx]
+  rfl
+
+example : (doUnsolicited (exMaster true (.idle none), []) 10 ⟨AppCtrl.ofNat 0xF5, true, 0, 0, [99], none⟩).1.getAssoc 10 =
+    some (Assoc.processIin { addr := 10, cfg := {}, integrityDone := true } 0 0) :=
+  doUnsolicited_invalid_assoc _ 10 _ { addr := 10, cfg := {}, integrityDone := true } rfl (by decide)
+
+theorem doUnsolicited_invalid_lastUnsol (a : Acc) (src : Nat) (r : Resp) (x : Assoc) (hx : a.1.getAssoc src = some x)
+    (hv : (unsolDecision x r).valid = false) :
+    ((doUnsolicited a src r).1.getAssoc src).map (·.lastUnsol) = some x.lastUnsol := by
+  rw [doUnsolicited_invalid_assoc a src r x hx hv]
+  simp only [Option.map_some, processIin_lastUnsol]
+
+example : ((doUnsolicited (exMaster true (.idle none), []) 10
+    ⟨AppCtrl.ofNat 0xF5, true, 0, 0, [99], none⟩).1.getAssoc 10).map (·.lastUnsol) = some none :=
+  doUnsolicited_invalid_lastUnsol _ 10 _ { addr := 10, cfg := {}, integrityDone := true } rfl (by decide)
+
+end Dnp3.Proofs.Master
+
+namespace Dnp3.Master
+
+/-- the confirm the property prescribes for an unsolicited response `r` received from `src` in state `s` -/
+def unsolExpected (s : MState) (src : Nat) (r : Resp) : List (Nat × Nat) :=
+  match s.getAssoc src with
+  | none => []
+  | some x => if (unsolDecision x r).confirm then [(src, 0xD0 + r.ctrl.seq)] else []
+
+/-- the confirms the property prescribes for the parsed fragment `r` received from `src` in state `s` -/
+def expectedConfirms (s : MState) (src : Nat) (r : Resp) : List (Nat × Nat) :=
+  match s.mode with
+  | .offline | .exited => []
+  | mode =>
+    if r.unsol then
+      match s.getAssoc src with
+      | none => []
+      | some x => if (unsolDecision x r).confirm then [(src, 0xD0 + r.ctrl.seq)] else []
+    else
+      match mode with
+      | .waitRead dest _ seq isFirst _ =>
+        (match processReadResponse dest seq isFirst (s.getAssoc dest).isSome src r with
+         | .accept true _ => [(dest, 0xC0 + seq)]
+         | _ => [])
+      | .waitNonRead dest _ seq _ _ =>
+        (match validateNonRead dest seq src r with
+         | .accept => if r.ctrl.con then [(dest, 0xC0 + seq)] else []
+         | _ => [])
+      | _ => []
+
+end Dnp3.Master
+
+namespace Dnp3.Proofs.Master
+open Dnp3 Dnp3.Master
+
+theorem notify_getAssoc_src (s : MState) (src : Nat) :
+    (notifyLinkActivity (s, []) src).1.getAssoc src = (s.getAssoc src).map (·.onLinkActivity s.now) :=
+  getAssoc_modAssoc (s, []) src _ (fun _ => rfl)
+
+theorem unsol_step_confirms (s : MState) (src : Nat) (r : Resp) :
+    confirmsOf (doUnsolicited (notifyLinkActivity (s, []) src) src r).2 = unsolExpected s src r := by
+  rw [doUnsolicited_confirms, notify_getAssoc_src]
+  unfold unsolExpected
+  cases s.getAssoc src with
+  | none => rfl
+  | some x => simp only [Option.map_some, unsolDecision_onLinkActivity, notify_outs, confirmsOf_nil, List.nil_append]
+
+theorem read_unsolicited (dest seq src : Nat) (isFirst ae : Bool) (r : Resp) (hu : r.unsol = true) :
+    processReadResponse dest seq isFirst ae src r = .unsolicited := by
+  unfold processReadResponse
+  simp only [hu, if_true]
+
+example : processReadResponse 10 3 true true 10 ⟨AppCtrl.ofNat 0xF5, true, 0, 0, [], some []⟩ = .unsolicited :=
+  read_unsolicited 10 3 10 true true _ rfl
+
+theorem nonread_unsolicited (dest seq src : Nat) (r : Resp) (hu : r.unsol = true) :
+    validateNonRead dest seq src r = .unsolicited := by
+  unfold validateNonRead
+  simp only [hu, if_true]
+
+example : validateNonRead 10 3 10 ⟨AppCtrl.ofNat 0xF5, true, 0, 0, [], some []⟩ = .unsolicited :=
+  nonread_unsolicited 10 3 10 _ rfl
+
+theorem confirm_exactly_when (s : MState) (src : Nat) (frag : List Nat) (r : Resp) (hp : parseResponse frag = some r) :
+    confirmsOf (Step.outs (onFragment (s, []) src frag)) = expectedConfirms s src r := by
+  cases hu : r.unsol with
+  | false =>
+    cases hm : s.mode with
+    | waitRead dest t seq isFirst dl =>
+      rw [read_confirms s dest seq dl t isFirst src frag r hm hp hu]
+      simp only [expectedConfirms, hm, hu, Bool.false_eq_true, if_false] <;> rfl
+    | waitNonRead dest t seq fc0 dl =>
+      rw [nonread_confirms s dest seq fc0 dl t src frag r hm hp hu]
+      simp only [expectedConfirms, hm, hu, Bool.false_eq_true, if_false]
+    | _ =>
+      unfold onFragment
+      simp only [expectedConfirms, hm, hp, hu, Bool.false_eq_true, if_false, Step.outs, Step.acc, notify_outs, confirmsOf_nil]
+  | true =>
+    have hus := unsol_step_confirms s src r
+    unfold unsolExpected at hus
+    cases hm : s.mode with
+    | waitRead dest t seq isFirst dl =>
+      unfold onFragment
+      simp only [expectedConfirms, hm, hp, hu, if_true, Step.outs, Step.acc, read_unsolicited _ _ _ _ _ r hu, hus]
+    | waitNonRead dest t seq fc0 dl =>
+      unfold onFragment
+      simp only [expectedConfirms, hm, hp, hu, if_true, Step.outs, Step.acc, nonread_unsolicited _ _ _ r hu, hus]
+    | _ =>
+      unfold onFragment
+      simp only [expectedConfirms, hm, hp, hu, if_true, Step.outs, Step.acc, hus, confirmsOf_nil]
+
+/-- a null unsolicited response (FIR FIN CON UNS, sequence 5) is confirmed in every online mode, also while a
+    non-READ request is in flight; an unsolicited response whose objects do not parse is not -/
+example : confirmsOf (Step.outs (onFragment (exMaster true (.idle none), []) 10 [0xF5, 130, 0, 0])) = [(10, 0xD5)] ∧
+    confirmsOf (Step.outs (onFragment (exMaster false (.waitNonRead 10 (.auto .disableUnsol 7) 3 21 5000), [])
+      10 [0xF5, 130, 0, 0])) = [(10, 0xD5)] ∧
+    confirmsOf (Step.outs (onFragment (exMaster true (.idle none), []) 10 [0xF5, 130, 0, 0, 99])) = [] :=
+  ⟨confirm_exactly_when _ 10 _ ⟨AppCtrl.ofNat 0xF5, true, 0, 0, [], some []⟩ rfl,
+   confirm_exactly_when _ 10 _ ⟨AppCtrl.ofNat 0xF5, true, 0, 0, [], some []⟩ rfl,
+   confirm_exactly_when _ 10 _ ⟨AppCtrl.ofNat 0xF5, true, 0, 0, [99], none⟩ rfl⟩
+
+/-- a solicited response in `waitNonRead`: the confirm goes to the task's destination with the request's sequence -/
+example : confirmsOf (Step.outs (onFragment (exMaster true (.waitNonRead 10 (.auto .disableUnsol 7) 3 21 5000), [])
+    10 [0xE3, 129, 0, 0])) = [(10, 0xC3)] :=
+  confirm_exactly_when _ 10 _ ⟨AppCtrl.ofNat 0xE3, false, 0, 0, [], some []⟩ rfl
+
+end Dnp3.Proofs.Master
+-- ===== END C15 step-level confirms =====
